@@ -172,6 +172,17 @@ impl Prop for C10 {
             let ga = attr_from_map(got.as_ref(), &text, columns)?;
             let wa = attr_from_map(want.as_ref(), &text, columns)?;
             cmp_attr(name, step, &text, &ga, &wa, columns)?;
+            // "there is a map" is part of the answer.  Only a SourceMapSource without inner map hands out a map that may
+            // map nothing (known finding K1); every other tree answers None exactly when nothing is mapped, whichever
+            // path filled the cache.
+            if got.is_some() != want.is_some() && !inner.any(&|s| matches!(s, Spec::Sms { .. } | Spec::Custom { .. })) {
+              return Err(format!(
+                "step {step}: {name} is {} (mappings {:?}), the wrapped source answers {}",
+                if got.is_some() { "Some" } else { "None" },
+                got.as_ref().map(|m| m.mappings().to_string()),
+                if want.is_some() { "Some" } else { "None" }
+              ));
+            }
             if let Some(prev) = &first_map[ci] {
               if *prev != got {
                 return Err(format!(
